@@ -2,13 +2,15 @@ package main
 
 import (
 	"bytes"
-	stdjson "encoding/json"
 	"errors"
 	"fmt"
 	"io"
+	"math"
 	"reflect"
+	"sort"
 	"strings"
 	"sync"
+	"sync/atomic"
 
 	json "github.com/go-json-experiment/json"
 	"github.com/go-json-experiment/json/jsontext"
@@ -149,13 +151,103 @@ func protect(f func() result) (r result) {
 	return f()
 }
 
-// dump renders a decoded value independently of the library under test.
+// dump renders a decoded value independently of the library under test and of addresses:
+// pointers and interfaces are followed, map keys sorted, floats printed by bits when not finite.
 func dump(v any) string {
-	b, err := stdjson.Marshal(v)
-	if err != nil {
-		return fmt.Sprintf("%+v", v)
+	var sb strings.Builder
+	dumpValue(&sb, reflect.ValueOf(v), 0)
+	return sb.String()
+}
+
+func dumpValue(sb *strings.Builder, v reflect.Value, depth int) {
+	if depth > 12000 {
+		sb.WriteString("<too deep>")
+		return
 	}
-	return string(b)
+	if !v.IsValid() {
+		sb.WriteString("nil")
+		return
+	}
+	switch v.Kind() {
+	case reflect.Pointer, reflect.Interface:
+		if v.IsNil() {
+			sb.WriteString("nil")
+			return
+		}
+		if v.Kind() == reflect.Pointer {
+			sb.WriteByte('&')
+		}
+		dumpValue(sb, v.Elem(), depth+1)
+	case reflect.Struct:
+		sb.WriteString(v.Type().Name() + "{")
+		for i := 0; i < v.NumField(); i++ {
+			if i > 0 {
+				sb.WriteByte(',')
+			}
+			sb.WriteString(v.Type().Field(i).Name + ":")
+			dumpValue(sb, v.Field(i), depth+1)
+		}
+		sb.WriteByte('}')
+	case reflect.Map:
+		if v.IsNil() {
+			sb.WriteString("nilmap")
+			return
+		}
+		keys := make([]string, 0, v.Len())
+		vals := map[string]reflect.Value{}
+		for it := v.MapRange(); it.Next(); {
+			var kb strings.Builder
+			dumpValue(&kb, it.Key(), depth+1)
+			keys = append(keys, kb.String())
+			vals[kb.String()] = it.Value()
+		}
+		sort.Strings(keys)
+		sb.WriteString("map[")
+		for i, k := range keys {
+			if i > 0 {
+				sb.WriteByte(',')
+			}
+			sb.WriteString(k + ":")
+			dumpValue(sb, vals[k], depth+1)
+		}
+		sb.WriteByte(']')
+	case reflect.Slice:
+		if v.IsNil() {
+			sb.WriteString("nilslice")
+			return
+		}
+		if v.Type().Elem().Kind() == reflect.Uint8 {
+			fmt.Fprintf(sb, "bytes%q", v.Bytes())
+			return
+		}
+		fallthrough
+	case reflect.Array:
+		sb.WriteByte('[')
+		for i := 0; i < v.Len(); i++ {
+			if i > 0 {
+				sb.WriteByte(',')
+			}
+			dumpValue(sb, v.Index(i), depth+1)
+		}
+		sb.WriteByte(']')
+	case reflect.String:
+		fmt.Fprintf(sb, "%q", v.String())
+	case reflect.Float32, reflect.Float64:
+		f := v.Float()
+		if math.IsNaN(f) || math.IsInf(f, 0) || (f == 0 && math.Signbit(f)) {
+			fmt.Fprintf(sb, "f#%016x", math.Float64bits(f))
+		} else {
+			fmt.Fprintf(sb, "%v", f)
+		}
+	case reflect.Bool:
+		fmt.Fprintf(sb, "%v", v.Bool())
+	case reflect.Int, reflect.Int8, reflect.Int16, reflect.Int32, reflect.Int64:
+		fmt.Fprintf(sb, "%d", v.Int())
+	case reflect.Uint, reflect.Uint8, reflect.Uint16, reflect.Uint32, reflect.Uint64, reflect.Uintptr:
+		fmt.Fprintf(sb, "%d", v.Uint())
+	default:
+		fmt.Fprintf(sb, "<%s>", v.Kind())
+	}
 }
 
 func scribble(b []byte) {
@@ -165,6 +257,8 @@ func scribble(b []byte) {
 }
 
 func deep(n int) string { return strings.Repeat("[", n) + strings.Repeat("]", n) }
+
+var insertionOrder atomic.Int64
 
 var (
 	catOnce sync.Once
@@ -244,6 +338,23 @@ func buildCatalogue() {
 		{"deep-1500", func() any { return deepVal(1500) }, true},
 		{"empty-containers", func() any {
 			return map[string]any{"a": []any{}, "b": map[string]any{}, "c": []int(nil), "d": map[string]int(nil)}
+		}, false},
+		{"map-insertion-orders", func() any {
+			// same contents, inserted in an order that differs from invocation to invocation, with deletions in between
+			k := int(insertionOrder.Add(1))
+			m := map[string]any{}
+			inner := map[int]string{}
+			for i := 0; i < 40; i++ {
+				j := (i*7 + k) % 40
+				m[fmt.Sprintf("extra%d", j)] = j
+				m[fmt.Sprintf("key%02d", j)] = float64(j)
+				inner[j-20] = fmt.Sprint(j)
+			}
+			for i := 0; i < 40; i++ {
+				delete(m, fmt.Sprintf("extra%d", (i+k)%40))
+			}
+			m["inner"] = inner
+			return m
 		}, false},
 		{"floats", func() any { return []float64{0, -0.0, 1e21, 1e-7, 123456789.125, 5e-324} }, false},
 	}
